@@ -376,7 +376,7 @@ replay_binding(const char *cas)
 }
 
 /* calendars of the pairs and their reach */
-static const int pair_cal[] = {C_YMD, C_YWD, C_YD, C_YMCW, C_BIZDA, C_LDN, C_EPOCH};
+static const int pair_cal[] = {C_YMD, C_YWD, C_YD, C_YMCW, C_BIZDA, C_LDN, C_EPOCH, C_BIZDAB};
 #define NPCAL	((int)(sizeof(pair_cal) / sizeof(*pair_cal)))
 #define REACH_MAX	1200	/* on the window days; 400 elsewhere */
 
@@ -430,7 +430,7 @@ main(int argc, char *argv[])
 		"default output, must be the DD-th Monday-Friday state of the month (an index beyond the month's count is no date: skipped, counted); every "
 		"Monday-Friday state as ymd text printed with %%Y-%%m-%%db and with the conversion format 'bizda' must give its bizda name. "
 		"non-trivial (2) = a weekend day lies at an end of or inside the interval");
-	ex_meta("bound", "%s tier: (2) all 911,280 days A x B = A+k, |k| <= %d in ymd, |k| <= %d in ywd yd ymcw bizda(Monday-Friday days) ldn epoch(@SECONDS of the days' midnights); for A in the four 8-year windows "
+	ex_meta("bound", "%s tier: (2) all 911,280 days A x B = A+k, |k| <= %d in ymd, |k| <= %d in ywd yd ymcw bizda(Monday-Friday days) ldn epoch(@SECONDS of the days' midnights) bizda-B(YYYY-MM-DDB, counted before ultimo); for A in the four 8-year windows "
 		"(1601-08 1897-1904 1997-2004 4088-95) |k| <= 1200 in ymd (B inside or outside the window) and all ordered pairs inside each window; (3) all 29,940 months x 23 indices, all Monday-Friday days x 2 formats; binding runs: %d",
 		ex.thorough ? "thorough" : "quick", reach[0], reach[1], ex.thorough ? NBIND : NBIND_QUICK);
 	ex_meta("ord", "ordered coordinate of a failure class (lo/hi in findings) = day ordinal rd of the first operand A (0 = 1601-01-01); bizda names: rd of the named day; binding classes: rd of the input line");
